@@ -398,7 +398,7 @@ impl<'a> View<'a> {
         }
         if let Some(ai) = aidx {
             let spec = self.sc.spec_of(ai);
-            if spec.fail_on_timeout && spec.timeout.is_some() && self.handler_cbs_of(a).any(|c| c.exit.is_none()) {
+            if spec.effective_fail_on_timeout() && self.handler_cbs_of(a).any(|c| c.exit.is_none()) {
                 return true;
             }
         }
